@@ -472,7 +472,10 @@ def run_feedback(case, make_observable):
     except Exception as e:
         return {"ctor": err_name(e)}
     esc = []
-    result.subscribe(on_next, lambda e: out.append(["E", err_name(e)]), lambda: out.append(["C"]))
+    try:
+        result.subscribe(on_next, lambda e: out.append(["E", err_name(e)]), lambda: out.append(["C"]))
+    except Exception as e:  # raised while subscribing: an observation, not a harness failure
+        return {"ctor": err_name(e)}
     armed[0] = True
     while pending:
         try:
